@@ -340,7 +340,7 @@ func (m *Machine) exec(fr *Frame, in ssa.Instruction) {
 		m.nextID++
 		m.set(fr, ins, &MapObj{KT: mt.Key(), VT: mt.Elem(), ID: m.nextID})
 	case *ssa.MakeSlice:
-		m.set(fr, ins, m.makeSlice(ins.Type().Underlying().(*types.Slice).Elem(), m.get(fr, ins.Len).(*sym.Term), m.get(fr, ins.Cap).(*sym.Term)))
+		m.set(fr, ins, m.makeSlice(ins.Type().Underlying().(*types.Slice).Elem(), m.toIdx(m.get(fr, ins.Len), ins.Len.Type()), m.toIdx(m.get(fr, ins.Cap), ins.Cap.Type())))
 	case *ssa.MapUpdate:
 		mo := m.get(fr, ins.Map).(*MapObj)
 		if mo == nil {
